@@ -25,7 +25,7 @@ META = {
                           'judged_leastness_by_scan', 'trace_monotone_pairs', 'judged_raw'],
     'shards': {'quick': 16, 'thorough': 16},
     'exhaustive': {'quick': 'all 682 tables <= 3x3 x all non-empty keys of both axes',
-                   'thorough': 'all tables <= 3x3, 3x4, 4x3 x all non-empty keys'},
+                   'thorough': 'all tables <= 3x3, 3x4, 4x3, 4x4 x all non-empty keys'},
     'assumptions': ['empty key for Context.__getitem__, unknown or mixed keys are out of scope',
                     'raw results are decoded through members()'],
 }
@@ -328,7 +328,7 @@ def setup(concepts, spec):
 
 
 def cases(tier, seed, spec):
-    return gen.ctx_stream(tier, seed)
+    return gen.ctx_stream(tier, seed, with_huge=True)
 
 
 def run_case(concepts, case, spec):
@@ -337,7 +337,9 @@ def run_case(concepts, case, spec):
     if ctx is None:
         return
     sh = attach.shadow_of(ctx)
-    sh.lattice(CAP[spec['tier']])     # too large => case skipped before any work
+    huge = case['fam'].startswith('HUGE')
+    if not huge:
+        sh.lattice(CAP[spec['tier']])     # too large => case skipped before any work
     COL.sample({'table': case, 'calls': 'ctx[key], lattice[key], lattice(properties), lattice[i]'})
     budget = 400 if spec['tier'] == 'thorough' else 140
     keys = []
@@ -361,6 +363,10 @@ def run_case(concepts, case, spec):
                         call(ctx.__getitem__, r[1])
                 except Exception:
                     pass
+    if huge:        # thousands of members on one axis: lookups only (Lindig over 6 000 atoms is slow)
+        COL.count('huge_axis_cases')
+        flush_trace()
+        return
     lat = common.get_lattice(ctx)
     if lat is RAISED:
         COL.count('lattice_construction_raised')
